@@ -6,6 +6,7 @@ import (
 	"sort"
 	"strconv"
 	"strings"
+	"time"
 
 	"verifharness/internal/proto"
 )
@@ -115,4 +116,32 @@ func boolStr(b bool) string {
 		return "true"
 	}
 	return "false"
+}
+
+// watchdog runs f and answers "hang" if it does not return (the leaderboard's GetRank spins for ever
+// on a board whose invariant is broken; the goroutine is abandoned, the runner marks the instance
+// as poisoned).  Generous limit first, short once hangs have been seen repeatedly.
+type watchdog struct{ hangs int }
+
+func (w *watchdog) run(f func() string) (out string, hung bool) {
+	limit := 5 * time.Second
+	if w.hangs >= 10 {
+		limit = 300 * time.Millisecond
+	}
+	ch := make(chan string, 1)
+	go func() {
+		defer func() {
+			if r := recover(); r != nil {
+				ch <- "panic"
+			}
+		}()
+		ch <- f()
+	}()
+	select {
+	case o := <-ch:
+		return o, false
+	case <-time.After(limit):
+		w.hangs++
+		return "hang", true
+	}
 }
